@@ -314,6 +314,7 @@ struct World {
 	void checkResumeProbe(int i);
 	void checkAsserts(int i, const Op& op);
 	void checkPayloads(int i, const Op& op, const Obs& before);
+	void checkIssuedKinds(int i, const Op& op, const Obs& before);
 	void checkPlansStorage(int i, const Op& op, const Obs& before);
 	// replication
 	void shipDelta(const Op& op, const Obs& before, int rounds, bool hadSchedule);
